@@ -37,16 +37,17 @@ func (c Case) canon() string {
 }
 
 const (
-	pGetter     = "getter"           // getter.HTTPGetter.Get(href, WithURL(repo), WithBasicAuth, WithPassCredentialsAll)
-	pIndex      = "index"            // repo.ChartRepository.DownloadIndexFile (helm repo add/update)
-	pDLRef      = "dl-ref"           // ChartDownloader.DownloadTo("r/x") with repositories.yaml + cached index
-	pDLFound    = "dl-url-found"     // ChartDownloader.DownloadTo(absolute URL) listed in the configured repo's index
-	pDLNotFound = "dl-url-notfound"  // ChartDownloader.DownloadTo(absolute URL) not listed in any configured repo's index
-	pLocate     = "locate-repo"      // ChartPathOptions.LocateChart("x") with --repo/--username/--password (through the loopback proxy)
-	pMgrUpdate  = "manager-update"   // Manager.Update, SkipUpdate (chart download only)
-	pMgrRefresh = "manager-refresh"  // Manager.Update including the repository index refresh
-	pMgrBuild   = "manager-build"    // Manager.Build from the Chart.lock a previous Update wrote
-	pMgrDecoy   = "manager-2repos"   // Manager.Update with a second, credential-less repository configured first whose index lists the same absolute chart URL
+	pGetter     = "getter"          // getter.HTTPGetter.Get(href, WithURL(repo), WithBasicAuth, WithPassCredentialsAll)
+	pIndex      = "index"           // repo.ChartRepository.DownloadIndexFile (helm repo add/update)
+	pDLRef      = "dl-ref"          // ChartDownloader.DownloadTo("r/x") with repositories.yaml + cached index
+	pDLFound    = "dl-url-found"    // ChartDownloader.DownloadTo(absolute URL) listed in the configured repo's index
+	pDLNotFound = "dl-url-notfound" // ChartDownloader.DownloadTo(absolute URL) not listed in any configured repo's index
+	pLocate     = "locate-repo"     // ChartPathOptions.LocateChart("x") with --repo/--username/--password (through the loopback proxy)
+	pPull       = "pull-repo"       // action.Pull.Run("x") with --repo/--username/--password (helm pull --repo; through the loopback proxy)
+	pMgrUpdate  = "manager-update"  // Manager.Update, SkipUpdate (chart download only)
+	pMgrRefresh = "manager-refresh" // Manager.Update including the repository index refresh
+	pMgrBuild   = "manager-build"   // Manager.Build from the Chart.lock a previous Update wrote
+	pMgrDecoy   = "manager-2repos"  // Manager.Update with a second, credential-less repository configured first whose index lists the same absolute chart URL
 	decoyName   = "a"
 	repoName    = "r"
 	otherChart  = "other-0.1.0.tgz"
@@ -58,8 +59,8 @@ func kindsOf(path string) []string {
 	switch path {
 	case pIndex:
 		return []string{"index"}
-	case pLocate, pMgrRefresh:
-		return []string{"chart", "prov", "index"}
+	case pLocate, pPull, pMgrRefresh:
+		return []string{"chart", "prov", "index"} // "index": the 302 hits the index request the path issues first
 	}
 	return []string{"chart", "prov"}
 }
@@ -105,10 +106,7 @@ var (
 
 func getWorld() *world {
 	theWorldOnce.Do(func() {
-		base := os.Getenv("VERIF_C19_HOME")
-		if base == "" {
-			base = "/var/tmp"
-		}
+		base := scratchBase()
 		home := filepath.Join(base, fmt.Sprintf("vc19-home-%d", os.Getpid()))
 		os.RemoveAll(home)
 		for _, d := range []string{"config", "cache/repository", "data/plugins", "dest", "cwd"} {
@@ -128,6 +126,23 @@ func getWorld() *world {
 		sweepStale(base)
 	})
 	return theWorld
+}
+
+// scratchBase: the per-worker HELM home lives on tmpfs when there is one (a case
+// costs 2-3 ms there, 10-20 ms wall on the ext4 root disk); VERIF_C19_HOME
+// overrides; /var/tmp is the fallback.
+func scratchBase() string {
+	if d := os.Getenv("VERIF_C19_HOME"); d != "" {
+		return d
+	}
+	if fi, err := os.Stat("/dev/shm"); err == nil && fi.IsDir() {
+		probe := filepath.Join("/dev/shm", fmt.Sprintf("vc19-probe-%d", os.Getpid()))
+		if err := os.WriteFile(probe, nil, 0o600); err == nil {
+			os.Remove(probe)
+			return "/dev/shm"
+		}
+	}
+	return "/var/tmp"
 }
 
 // sweepStale removes homes left behind by workers that no longer exist.
@@ -162,17 +177,17 @@ func (w *world) providers(tr *http.Transport) getter.Providers {
 	}}
 }
 
-func emptyDir(d string) {
-	ents, _ := os.ReadDir(d)
-	for _, e := range ents {
-		os.RemoveAll(filepath.Join(d, e.Name()))
-	}
-}
-
 // configure writes repositories.yaml and the cached indexes.
+//
+// Files are overwritten in place rather than wiped (file system calls dominate
+// the cost of a case): the names are fixed (repositories.yaml, r-index.yaml,
+// a-index.yaml, dest/x.tgz[.prov]), every file Helm reads is rewritten for every
+// case, and whatever Helm downloads is written by rename over the old name, so
+// nothing a case reads was left behind by an earlier one.
 func (w *world) configure(entries []*repo.Entry, indexes map[string][]byte) error {
-	emptyDir(w.repoCache())
-	emptyDir(w.dest())
+	if _, ok := indexes[decoyName]; !ok {
+		os.Remove(filepath.Join(w.repoCache(), decoyName+"-index.yaml"))
+	}
 	f := repo.NewFile()
 	for _, e := range entries {
 		f.Update(e)
@@ -192,10 +207,17 @@ func credEntry(c Case) *repo.Entry {
 	return &repo.Entry{Name: repoName, URL: c.Repo, Username: repoUser, Password: repoPass, PassCredentialsAll: c.Pass}
 }
 
-func redirectHostFor(repoURL string) string {
+// redirectHostFor picks the target of the "302 to an unrelated domain": evil.test,
+// unless the repository or the chart itself lives on (a sub- or parent domain of)
+// evil.test -- then attacker.example, which is unrelated to every host of the
+// alphabet.
+func redirectHostFor(repoURL, chart string) string {
 	h := "evil.test"
 	if o, err := originOfURL(repoURL); err == nil && related(o.host, h) {
-		h = "attacker.example"
+		return "attacker.example"
+	}
+	if o, err := originOfURL(resolveRef(repoURL, chart)); err == nil && related(o.host, h) {
+		return "attacker.example"
 	}
 	return h
 }
@@ -209,7 +231,7 @@ type Result struct {
 // execCase runs one case on the real code and returns what reached the wire.
 func execCase(c Case) (res Result) {
 	w := getWorld()
-	sc := scenario{index: indexYAML(c.Chart), redirect: c.Redirect, redirectKind: c.Kind, redirectHost: redirectHostFor(c.Repo)}
+	sc := scenario{index: indexYAML(c.Chart), redirect: c.Redirect, redirectKind: c.Kind, redirectHost: redirectHostFor(c.Repo, c.Chart)}
 	defer func() {
 		if r := recover(); r != nil {
 			res.Err = fmt.Sprintf("panic: %v", r)
@@ -293,6 +315,23 @@ func execCase(c Case) (res Result) {
 		_, err := cpo.LocateChart("x", settings)
 		return fail(err)
 
+	case pPull:
+		if err := w.org.ensureProxy(); err != nil {
+			return fail(err)
+		}
+		if err := w.configure(nil, nil); err != nil {
+			return fail(err)
+		}
+		w.org.begin(sc)
+		p := action.NewPull(action.WithConfig(&action.Configuration{}))
+		p.Settings = cli.New()
+		p.DestDir = w.dest()
+		p.RepoURL, p.Username, p.Password, p.PassCredentialsAll = c.Repo, repoUser, repoPass, c.Pass
+		p.InsecureSkipTLSverify = true
+		p.VerifyLater = c.Kind == "prov"
+		_, err := p.Run("x")
+		return fail(err)
+
 	case pMgrUpdate, pMgrRefresh, pMgrBuild, pMgrDecoy:
 		entries := []*repo.Entry{credEntry(c)}
 		indexes := map[string][]byte{repoName: sc.index}
@@ -309,10 +348,12 @@ func execCase(c Case) (res Result) {
 			return fail(err)
 		}
 		parent := filepath.Join(w.home, "parent")
-		os.RemoveAll(parent)
 		if err := os.MkdirAll(parent, 0o755); err != nil {
 			return fail(err)
 		}
+		os.Remove(filepath.Join(parent, "Chart.lock"))
+		os.Remove(filepath.Join(parent, "charts", "x.tgz"))
+		os.Remove(filepath.Join(parent, "charts", "x.tgz.prov"))
 		chartYAML := "apiVersion: v2\nname: parent\nversion: 0.1.0\ndependencies:\n- name: x\n  version: " + depVersion + "\n  repository: " + yamlQuote(c.Repo) + "\n"
 		if err := os.WriteFile(filepath.Join(parent, "Chart.yaml"), []byte(chartYAML), 0o644); err != nil {
 			return fail(err)
@@ -328,7 +369,8 @@ func execCase(c Case) (res Result) {
 			if _, err := os.Stat(filepath.Join(parent, "Chart.lock")); err != nil {
 				return Result{Err: "setup update wrote no Chart.lock"}
 			}
-			os.RemoveAll(filepath.Join(parent, "charts"))
+			os.Remove(filepath.Join(parent, "charts", "x.tgz"))
+			os.Remove(filepath.Join(parent, "charts", "x.tgz.prov"))
 			w.org.begin(sc)
 			return fail(m.Build())
 		}
